@@ -180,6 +180,37 @@ func checkSolve(c solveCase) *vk.Failure {
 				return failf("self-residual", "Solve(a, a): ||A - A X|| column %d = %g", j, norm2(r.col(j)))
 			}
 		}
+		// the same matrix value on both sides with different transpose
+		// flags is an ordinary system op(A) X = op'(A), not the a == b case
+		if m == n {
+			for _, tt := range [][2]bool{{true, false}, {false, true}, {true, true}} {
+				var am, bm mat.Matrix = ad, ad
+				refA, refB := g.A, g.A
+				name := "Solve(a, a)"
+				if tt[0] {
+					am, refA = ad.T(), g.A.t()
+				}
+				if tt[1] {
+					bm, refB = ad.T(), g.A.t()
+				}
+				name = fmt.Sprintf("Solve(a%s, a%s) with one matrix value a", map[bool]string{true: ".T()", false: ""}[tt[0]], map[bool]string{true: ".T()", false: ""}[tt[1]])
+				dstT, _ := mkDst(c.Dst, n, n, nil, sm)
+				if err := dstT.d.Solve(am, bm); err != nil {
+					return failf("self-transposed-error", "%s returned %v", name, err)
+				}
+				XT, fT := dstT.result("self-transposed")
+				if fT != nil {
+					return fT
+				}
+				rt, _ := residDD(refA, XT, refB)
+				for j := 0; j < n; j++ {
+					tol := cOrth * float64(n) * eps * (frob(refA)*norm2(XT.col(j)) + norm2(refB.col(j)))
+					if !leq(norm2(rt.col(j)), tol) {
+						return failf("self-transposed-residual", "%s: ||op'(A) - op(A) X|| column %d = %g (tolerance %g)", name, j, norm2(rt.col(j)), tol)
+					}
+				}
+			}
+		}
 		return nil
 	}
 
